@@ -18,6 +18,8 @@ type Val struct {
 	Typ types.Type // nil: untyped integer constant held in C
 	C   *big.Int
 	Loc *Loc // statically known pointer target (pointer-typed values only)
+	Lazy func(typ types.Type) Val // untyped constant shifted by a non-constant count: typed by context
+	FixedN int64 // slices carved out of a fixed-size array object: its length (0 = unknown)
 }
 
 func scalar(t Term, typ types.Type) Val { return Val{T: []Term{t}, Typ: typ} }
@@ -146,6 +148,9 @@ func (c *EvalCtx) coerce(v Val, typ types.Type) Val {
 	if v.Typ != nil {
 		return v
 	}
+	if v.Lazy != nil {
+		return v.Lazy(typ)
+	}
 	if w, _, ok := isIntType(typ); ok {
 		return scalar(BVConst(v.C, w), typ)
 	}
@@ -211,6 +216,16 @@ func (c *EvalCtx) eval(e ast.Expr) Val {
 		return c.evalSlice(n)
 	case *ast.UnaryExpr:
 		x := c.eval(n.X)
+		if x.Typ == nil && x.Lazy != nil && (n.Op == token.SUB || n.Op == token.XOR) {
+			inner, op := x.Lazy, n.Op
+			return Val{Lazy: func(typ types.Type) Val {
+				v := inner(typ)
+				if op == token.SUB {
+					return scalar(BVNeg(v.One()), typ)
+				}
+				return scalar(BVNot(v.One()), typ)
+			}}
+		}
 		switch n.Op {
 		case token.NOT:
 			return scalar(Not(x.One()), types.Typ[types.Bool])
@@ -430,6 +445,24 @@ func (c *EvalCtx) evalBinary(n *ast.BinaryExpr) Val {
 			}
 			return untyped(new(big.Int).Rsh(x.C, uint(y.C.Int64())))
 		}
+		if x.Typ == nil && x.Lazy == nil {
+			// untyped constant shifted by a non-constant count: the type comes from the context
+			xc, yv, op := x.C, c.defaultType(y), n.Op
+			return Val{Lazy: func(typ types.Type) Val {
+				w, signed, ok := isIntType(typ)
+				if !ok {
+					evalFail("shift of constant in non-integer context")
+				}
+				o := "bvshl"
+				if op == token.SHR {
+					o = "bvlshr"
+					if signed {
+						o = "bvashr"
+					}
+				}
+				return scalar(BVBin(o, BVConst(xc, w), shiftCount(yv, w)), typ)
+			}}
+		}
 		x = c.defaultType(x)
 		w, signed, ok := isIntType(x.Typ)
 		if !ok {
@@ -444,6 +477,12 @@ func (c *EvalCtx) evalBinary(n *ast.BinaryExpr) Val {
 			}
 		}
 		return scalar(BVBin(op, x.One(), cnt), x.Typ)
+	}
+	if x.Typ == nil && x.Lazy != nil && y.Typ == nil {
+		x = c.defaultType(x)
+	}
+	if y.Typ == nil && y.Lazy != nil && x.Typ == nil {
+		y = c.defaultType(y)
 	}
 	// untyped constant arithmetic
 	if x.Typ == nil && y.Typ == nil {
@@ -596,9 +635,13 @@ func (c *EvalCtx) evalCall(n *ast.CallExpr) Val {
 			if !ok {
 				evalFail("malformed quantifier")
 			}
+			if id.Name == "__forall" {
+				if v, ok := c.expandBounded(fl); ok {
+					return v
+				}
+			}
 			cc := c.child()
 			var binders []string
-			var guards []Term
 			for _, p := range fl.Type.Params.List {
 				typ := c.resolveType(p.Type)
 				if typ == nil {
@@ -614,7 +657,6 @@ func (c *EvalCtx) evalCall(n *ast.CallExpr) Val {
 					cc.Vars[nm.Name] = scalar(Term{bn, ls[0].Sort}, typ)
 				}
 			}
-			_ = guards
 			ret := fl.Body.List[0].(*ast.ReturnStmt).Results[0]
 			body := cc.eval(ret).One()
 			q := "forall"
@@ -701,6 +743,64 @@ func (c *EvalCtx) evalCall(n *ast.CallExpr) Val {
 	}
 	evalFail("unsupported call in specification")
 	return Val{}
+}
+
+// expandBounded expands `forall k T :: lo <= k && k < hi ==> body` with constant bounds spanning at
+// most 64 values into a conjunction of instances (quantifier-free).
+func (c *EvalCtx) expandBounded(fl *ast.FuncLit) (Val, bool) {
+	if len(fl.Type.Params.List) != 1 || len(fl.Type.Params.List[0].Names) != 1 {
+		return Val{}, false
+	}
+	name := fl.Type.Params.List[0].Names[0].Name
+	typ := c.resolveType(fl.Type.Params.List[0].Type)
+	if typ == nil {
+		return Val{}, false
+	}
+	w, _, ok := isIntType(typ)
+	if !ok {
+		return Val{}, false
+	}
+	ret := fl.Body.List[0].(*ast.ReturnStmt).Results[0]
+	call, ok := ret.(*ast.CallExpr)
+	if !ok {
+		return Val{}, false
+	}
+	if fid, ok := call.Fun.(*ast.Ident); !ok || fid.Name != "__imp" {
+		return Val{}, false
+	}
+	guard, ok := call.Args[0].(*ast.BinaryExpr)
+	if !ok || guard.Op != token.LAND {
+		return Val{}, false
+	}
+	loE, ok1 := guard.X.(*ast.BinaryExpr)
+	hiE, ok2 := guard.Y.(*ast.BinaryExpr)
+	if !ok1 || !ok2 || loE.Op != token.LEQ || hiE.Op != token.LSS {
+		return Val{}, false
+	}
+	isName := func(e ast.Expr) bool { id, ok := e.(*ast.Ident); return ok && id.Name == name }
+	if !isName(loE.Y) || !isName(hiE.X) {
+		return Val{}, false
+	}
+	constOf := func(e ast.Expr) (int64, bool) {
+		bl, ok := e.(*ast.BasicLit)
+		if !ok || bl.Kind != token.INT {
+			return 0, false
+		}
+		v, err := strconv.ParseInt(bl.Value, 0, 64)
+		return v, err == nil
+	}
+	lo, okl := constOf(loE.X)
+	hi, okh := constOf(hiE.Y)
+	if !okl || !okh || hi-lo > 64 || hi < lo {
+		return Val{}, false
+	}
+	var conj []Term
+	for k := lo; k < hi; k++ {
+		cc := c.child()
+		cc.Vars[name] = scalar(BVInt(k, w), typ)
+		conj = append(conj, cc.eval(call.Args[1]).One())
+	}
+	return scalar(And(conj...), types.Typ[types.Bool]), true
 }
 
 func (c *EvalCtx) evalArgs(args []ast.Expr) []Val {
